@@ -8,7 +8,7 @@ if __name__=='__main__':
     from pyvc.contract import REGISTRY
     models.install()
     import contracts
-    jobs=[(c.key,'quick') for c in REGISTRY.for_property(pid)]
+    jobs=[(c.key,'quick',i,c.shards) for c in REGISTRY.for_property(pid) for i in range(c.shards)]
     ctx=mp.get_context('spawn')
     t=time.time()
     with ctx.Pool(16, initializer=driver._init_worker, initargs=(driver._PROTO, driver.TREE)) as pool:
